@@ -355,15 +355,30 @@ def search(progs):
     return rr
 
 
+def is_hinted_fn(f):
+    """A hinted insertion entry point of FlatSet, recognised by its shape (names are free to change): a member taking a position
+    of the set followed by a value / arguments / a node, and returning a position."""
+    if not in_class(f, FS) or f.get('kind') != 'method' or len(f.get('params', [])) < 2 or short(f['name']) == 'erase':
+        return False
+    p0, p1 = norm(f['params'][0]['t']), norm(f['params'][1]['t'])
+    is_pos = p0.rstrip().endswith('*') or '__normal_iterator' in p0
+    ret = norm(f.get('ret') or '')
+    ret_pos = ret.rstrip().endswith('*') or '__normal_iterator' in ret
+    return is_pos and ret_pos and p1 != p0 and not (f['params'][0]['t'].rstrip().endswith('&'))
+
+
 def hint_k(progs):
     rr = RuleResult('HINT-K', 'insert_hint is loop-free and on every path that reaches neither a binary search nor the un-hinted insert it makes at '
                               'most 8 direct comparator calls (amc itself needs at most 4; the property only asks for a constant)')
     for prog in progs:
         cmps = compare_types(prog)
         for f in prog.amc_functions():
-            if f['name'] != FS + '::insert_hint' or f.get('body') is None:
+            if f.get('body') is None or not is_hinted_fn(f):
                 continue
             body = f['body']
+            if not any(c.get('op') == '()' and norm(A.strip(c.get('obj') or {}).get('t', '')) in cmps for c in A.calls(body)) and \
+                    not any(A.callee(c) in SEARCH_ALGOS for c in A.calls(body)):
+                continue      # a pure delegation: the decision tree is in the member it forwards to
             loops = [n for n in walk(body) if n.get('k') in A.LOOPS]
 
             # enumerate paths of the structured tree: (comparator calls, searched) for every way to a return
